@@ -199,6 +199,7 @@ CastsIS == {"int", "str"}
 FldsP == << n_p >>
 FamCmpData == {"lit", "list", "tuple", "bin", "let"}            \* == and != between lists and tuples of every small shape
 OpsEqNe == {"eq", "ne"}
+SigsRes == << << Fld(N_env, IntV(1)) >>, << Fld(N_self, IntV(1)) >>, << Fld(n_x, IntV(2)) >> >>     \* parameters named env, self
 FamFuncSel == {"lit", "var", "bin", "dot", "func", "letuse"}      \* bodies that select fields / elements of a parameter
 SigsTup == << << Fld(n_t, TupleV(<< Fld(n_a, IntV(1)), Fld(n_b, IntV(2)) >>)) >>,
               << Fld(n_l, ListV(<< IntV(1), IntV(2) >>)) >> >>
